@@ -11,7 +11,7 @@ use std::sync::Arc;
 
 pub struct C14;
 
-const NAMES: [&str; 3] = ["n1", "n2", "n3.example"];
+const NAMES: [&str; 3] = ["n1", "n1x", "n3.example"];
 
 /// (primary, alternate) configurations over the three names
 fn configs() -> Vec<(usize, Option<usize>)> {
@@ -207,7 +207,7 @@ fn judge(unit: &Value, o: &Obs) -> Judged {
 /// Verifier layer: every (accepted set, presented certificate name, dialed name) triple.
 fn verifier_layer(out: &mut UnitResult) {
     use rustls::pki_types::{CertificateDer, ServerName, UnixTime};
-    let all = ["n1", "n2", "n3.example", "zz"];
+    let all = ["n1", "n1x", "n3.example", "zz"];
     let now = UnixTime::now();
     let certs: Vec<CertificateDer<'static>> = all.iter().map(|n| crate::adversary::anemo_cert(5, n)).collect();
     let pid = peer_id_of_key(5);
@@ -243,7 +243,7 @@ impl Check for C14 {
             property: "C14",
             level: "exploration",
             rule: "all 9x9 (primary, alternate) configurations of dialer and listener over three names, with and without identity pinning, both key orders; an adversarial dialer for every (claimed SNI in 4 names) x (certificate name) x (listener configuration); an adversarial listener for every (certificate name) x (dialer configuration) recording the announced SNI; plus the certificate verifiers on every (accepted-name subset, certificate name, dialed name) triple; distinct = distinct (scenario kind, expected, observed)".into(),
-            assumptions: vec!["three network names plus one unknown name stand for all names".into()],
+            assumptions: vec!["three network names (one a proper prefix of another: n1, n1x, n3.example) plus one unknown name stand for all names".into()],
             exhaustive: true,
         }
     }
@@ -263,7 +263,7 @@ impl Check for C14 {
             }
         }
         for l in &cs {
-            for sni in ["n1", "n2", "n3.example", "zz"] {
+            for sni in ["n1", "n1x", "n3.example", "zz"] {
                 for c in 0..3 {
                     u.push(json!({"kind":"adv_dialer","listener":j(l),"sni":sni,"cert_name":c}));
                 }
